@@ -21,7 +21,9 @@ OperandTable ==
   [ A |-> A, B |-> B, C |-> C, G |-> G, P |-> P, Tz |-> Tz, D |-> D,
     AcB |-> Comp(<<A, B>>), GcA |-> Comp(<<G, A>>), ApB |-> AddT(<<A, B>>),
     I2v |-> Id(v2), I3v |-> Id(v3), H2 |-> Hom(2, 1, v2), H3 |-> Hom(3, 1, v3), Hh |-> Hom(-1, 2, v2),
-    AI |-> InvOf(A), DI |-> DInvOf(D), R1 |-> R1, R1T |-> RotTOf(R1), Hq |-> Hom(-3, 1, QU2), Iqu |-> Id(QU2) ]
+    AI |-> InvOf(A), DI |-> DInvOf(D), R1 |-> R1, R1T |-> RotTOf(R1), Hq |-> Hom(-3, 1, QU2), Iqu |-> Id(QU2),
+    \* an operator next to its own lazy (generic) transpose: A @ A.T is NOT the identity unless A is orthogonal
+    Pr |-> Pr, PrT |-> TOf(Pr), Bd |-> Bd, BdT |-> TOf(Bd) ]
 Opd(n) == OperandTable[n]
 
 \* scalars: <<num, den, kind>>; kind "vec" is a 1-d array, which must be refused
